@@ -37,8 +37,16 @@ class Num(V):
 
 
 class Fr(V):
-    def __init__(self, idx, e, attr=False):
+    """lab -- how pandas / numpy will PAIR this value with another one:
+         ("name", idx)   columns labelled by the element names of idx (label alignment: same name <-> same element)
+         ("node", role)  columns labelled by the start / end NODE names of the links of idx
+         ("pos", order)  a numpy array: paired by position; order = (idx, order of the name list it was built from)
+         None            one column (a time Series / a scalar) of the element the enclosing loop is at"""
+
+    def __init__(self, idx, e, attr=False, lab="default"):
         self.idx, self.e, self.attr = idx, e, attr  # attr: an attribute of the element (may be None), not a table
+        self.lab = (None if attr else ("name", idx)) if lab == "default" else lab
+        self.order = "canon"  # order of the columns of a name-labelled table (matters once it becomes a numpy array)
 
 
 class Tab(V):
@@ -56,8 +64,8 @@ class Opt(V):
 
 
 class Names(V):
-    def __init__(self, idx):
-        self.idx = idx
+    def __init__(self, idx, order="canon"):
+        self.idx, self.order = idx, order  # order matters only where values are paired by position
 
 
 class ElemName(V):
@@ -70,9 +78,9 @@ class Elem(V):
         self.idx = idx
 
 
-class NodeRef(V):  # start / end node name(s) of the current link
-    def __init__(self, idx, role):
-        self.idx, self.role = idx, role
+class NodeRef(V):  # start / end node name of the current link (many: the list of them, one per link, in `order`)
+    def __init__(self, idx, role, many=False, order="canon"):
+        self.idx, self.role, self.many, self.order = idx, role, many, order
 
 
 class Iter(V):
@@ -186,7 +194,7 @@ def camel(s):
 
 
 KNOWN_VARS = (
-    "demand head pressure elevation flowrate headStart headEnd expectedDemand level maxLevel minLevel diameter volCurve "
+    "demand head pressure elevation flowrate expectedDemand level maxLevel minLevel diameter volCurve "
     "length power valveType energyPrice energyPattern efficiency energy curveA curveB curveC pop arg1 arg2 "
     "averageExpectedDemand Pstar R globalEfficiency globalPrice globalPattern demandCharge reportTimestep pi "
     "ts patternStart demandMultiplier"
@@ -232,12 +240,39 @@ def lift2(a, b, f, what):
         raise BrokenTie("%s combines columns over %s with columns over %s (pandas would misalign)" % (what, ia, ib))
     idx = ia if ia is not None else ib
     e = f(ea, eb)
-    return Fr(idx, e) if idx is not None else Num(e)
+    if idx is None:
+        return Num(e)
+    if isinstance(a, Fr) and isinstance(b, Fr):
+        if a.lab != b.lab:
+            raise BrokenTie("%s pairs values that pandas / numpy would not pair element by element: %s with %s"
+                            % (what, lab_str(a.lab), lab_str(b.lab)))
+        lab = a.lab
+        order = a.order if a.order == b.order else "mixed(%s,%s)" % (a.order, b.order)
+    else:
+        lab = a.lab if isinstance(a, Fr) else b.lab
+        order = a.order if isinstance(a, Fr) else b.order
+    r = Fr(idx, e, lab=lab)
+    r.order = order
+    return r
+
+
+def lab_str(l):
+    if l is None:
+        return "a single column of the current element"
+    if l[0] == "name":
+        return "columns labelled by the names of the %s" % l[1]
+    if l[0] == "node":
+        return "columns labelled by the %s node names" % l[1].lower()
+    return "a numpy array in the order of %s (%s)" % l[1]
 
 
 def lift1(a, f, what):
     e = f(expr_of(a, what))
-    return Fr(a.idx, e) if isinstance(a, Fr) else Num(e)
+    if not isinstance(a, Fr):
+        return Num(e)
+    r = Fr(a.idx, e, lab=a.lab)
+    r.order = a.order
+    return r
 
 
 def mentions_prev(e):
@@ -308,7 +343,7 @@ class Interp:
             for c in st["guards"][1:]:
                 g = ("and", g, c)
             if isinstance(res, Fr):
-                res = Fr(res.idx, ("ite", g, res.e, ("raise",)))
+                res = Fr(res.idx, ("ite", g, res.e, ("raise",)), lab=res.lab)
             elif isinstance(res, Num):
                 res = Num(("ite", g, res.e, ("raise",)))
             else:
@@ -396,6 +431,8 @@ class Interp:
             if isinstance(val, TimeList):
                 val = val.item
             e = expr_of(val, "in " + ast.unparse(tgt))
+            if isinstance(val, Fr) and val.lab is not None:
+                raise BrokenTie("a whole table (%s) assigned to one column: %s" % (lab_str(val.lab), ast.unparse(tgt)))
             if isinstance(val, Fr) and val.idx != k.idx:
                 raise BrokenTie("column of %s assigned under a name of %s" % (val.idx, k.idx))
             if isinstance(cont, DictCols):
@@ -497,8 +534,10 @@ class Interp:
             if changed:
                 for k in changed:
                     v = live["vars"][k]
-                    if isinstance(v, (Fr, DictCols)) and v.idx is not None:
-                        live["vars"][k] = type(v)(v.idx, ("ite", cc, v.e, ("raise",)))
+                    if isinstance(v, Fr):
+                        live["vars"][k] = Fr(v.idx, ("ite", cc, v.e, ("raise",)), lab=v.lab)
+                    elif isinstance(v, DictCols) and v.idx is not None:
+                        live["vars"][k] = DictCols(v.idx, ("ite", cc, v.e, ("raise",)))
                     elif isinstance(v, Num):
                         live["vars"][k] = Num(("ite", cc, v.e, ("raise",)))
                     else:
@@ -545,7 +584,12 @@ class Interp:
                 e = ("add", ("prev", k), ("ite", c, sa, sb))
             else:
                 e = ("ite", c, ea, eb)
-            return Fr(idx, e) if idx is not None else Num(e)
+            if idx is None:
+                return Num(e)
+            la = [v.lab for v in (va, vb) if isinstance(v, Fr)]
+            if len(la) == 2 and la[0] != la[1]:
+                raise BrokenTie("branches give %s differently labelled values" % k)
+            return Fr(idx, e, lab=la[0])
         if isinstance(va, DictCols) and isinstance(vb, DictCols) and va.idx == vb.idx and va.idx is not None:
             return DictCols(va.idx, ("ite", c, va.e, vb.e))
         return Poison("%s differs between the branches of an if (%s / %s)" % (k, type(va).__name__, type(vb).__name__))
@@ -628,7 +672,7 @@ class Interp:
                 if isinstance(v, Num):
                     st["vars"][k] = Num(v2, v.given)
                 elif isinstance(v, Fr):
-                    st["vars"][k] = Fr(v.idx, v2, v.attr)
+                    st["vars"][k] = Fr(v.idx, v2, v.attr, lab=v.lab)
                 else:
                     st["vars"][k] = DictCols(v.idx, v2)
         # loop-local per-element values stay usable as columns (Fr over idx)
@@ -662,6 +706,8 @@ class Interp:
             for (m2, f2) in self.funcs:
                 if f2 == n.id and "." not in f2:
                     return Py(("func", m2, f2))
+            if n.id in ("sorted", "reversed", "list"):
+                return Py(("builtin", n.id))
             if n.id in ("logger", "float", "int", "str", "bool", "object"):
                 return Opaque()
             raise BrokenTie("unknown name %s" % n.id)
@@ -710,9 +756,24 @@ class Interp:
             raise BrokenTie("unsupported comprehension: " + ast.unparse(n)[:80])
         g = n.generators[0]
         it = self.ev(g.iter, vars_, mod)
+        v2 = dict(vars_)
+        if isinstance(it, Iter):  # [f(name, elem) for name, elem in wn.pumps()]
+            bound = [ElemName(it.idx), Elem(it.idx)]
+            tg = g.target.elts if isinstance(g.target, ast.Tuple) else None
+            if it.pair and tg is not None and len(tg) == 2 and all(isinstance(t, ast.Name) for t in tg):
+                v2[tg[0].id], v2[tg[1].id] = bound
+            else:
+                raise BrokenTie("unsupported comprehension target")
+            r = self.ev(n.elt, v2, mod)
+            if isinstance(r, NodeRef) and r.idx == it.idx and not r.many:
+                return NodeRef(r.idx, r.role, many=True, order="canon")
+            if isinstance(r, Fr) and r.idx == it.idx and r.lab is None:
+                return Fr(r.idx, r.e, lab=("pos", (it.idx, "canon")))
+            if isinstance(r, ElemName) and r.idx == it.idx:
+                return Names(it.idx)
+            raise BrokenTie("comprehension over %s gives %s" % (it.idx, type(r).__name__))
         if not isinstance(g.target, ast.Name):
             raise BrokenTie("unsupported comprehension target")
-        v2 = dict(vars_)
         if isinstance(it, TimeIndex):
             v2[g.target.id] = Opaque()
             r = self.ev(n.elt, v2, mod)  # must not depend on the time: Opaque cannot be combined
@@ -722,10 +783,12 @@ class Interp:
         if isinstance(it, Names):
             v2[g.target.id] = ElemName(it.idx)
             r = self.ev(n.elt, v2, mod)
-            if isinstance(r, (NodeRef, Fr)) and r.idx == it.idx:
-                return r
+            if isinstance(r, NodeRef) and r.idx == it.idx and not r.many:
+                return NodeRef(r.idx, r.role, many=True, order=it.order)
+            if isinstance(r, Fr) and r.idx == it.idx and r.lab is None:
+                return Fr(r.idx, r.e, lab=("pos", (it.idx, it.order)))  # a python list, one entry per element
             if isinstance(r, ElemName) and r.idx == it.idx:
-                return Names(it.idx)
+                return Names(it.idx, it.order)
             raise BrokenTie("comprehension over %s gives %s" % (it.idx, type(r).__name__))
         raise BrokenTie("comprehension over %s" % type(it).__name__)
 
@@ -756,6 +819,8 @@ class Interp:
             return Py(("demandsat", v.idx))
         if isinstance(v, VolCurve) and v.stage == "curve" and a == "points":
             return VolCurve(v.idx, "points")
+        if isinstance(v, Fr) and a == "values":  # numpy array: paired by position from here on
+            return v if (v.lab is None or v.lab[0] == "pos") else Fr(v.idx, v.e, lab=("pos", (v.idx, v.order)))
         if isinstance(v, (Tab, Fr, DictCols, EmptyFrame)):
             if a == "index":
                 return TimeIndex()
@@ -782,13 +847,23 @@ class Interp:
     def select(self, tab, key, node):
         """tab.loc[:, key] / tab[key]"""
         if isinstance(tab, Tab):
-            if isinstance(key, (Names, ElemName)):
-                return Fr(key.idx, ("var", camel(tab.name)))
-            if isinstance(key, NodeRef):
-                return Fr(key.idx, ("var", camel(tab.name) + key.role))
+            if isinstance(key, Names):
+                r = Fr(key.idx, ("var", camel(tab.name)), lab=("name", key.idx))
+                r.order = key.order
+                return r
+            if isinstance(key, ElemName):
+                return Fr(key.idx, ("var", camel(tab.name)), lab=None)
+            if isinstance(key, NodeRef):  # the table's value at the start / end NODE of the current link
+                r = Fr(key.idx, ("at", camel(tab.name), key.role), lab=("node", key.role) if key.many else None)
+                r.order = key.order
+                return r
         if isinstance(tab, Fr):
-            if isinstance(key, (Names, ElemName)) and key.idx == tab.idx:
-                return tab
+            if isinstance(key, Names) and key.idx == tab.idx and tab.lab == ("name", tab.idx):
+                r = Fr(tab.idx, tab.e, lab=tab.lab)
+                r.order = key.order
+                return r
+            if isinstance(key, ElemName) and key.idx == tab.idx and tab.lab == ("name", tab.idx):
+                return Fr(tab.idx, tab.e, lab=None)
         raise BrokenTie("unsupported selection %s" % ast.unparse(node)[:80])
 
     def subscript(self, n, vars_, mod):
@@ -826,11 +901,19 @@ class Interp:
         src = ast.unparse(n)[:90]
         if isinstance(f, Rel):
             if len(args) == 2 and all(isinstance(a, Fr) and a.e[0] == "var" for a in args) and args[0].idx == args[1].idx:
-                return Fr(args[0].idx, ("ind", ("rel", args[0].e[1], args[1].e[1])))
+                if args[0].lab != args[1].lab:
+                    raise BrokenTie("comparison of differently labelled tables: " + src)
+                return Fr(args[0].idx, ("ind", ("rel", args[0].e[1], args[1].e[1])), lab=args[0].lab)
             raise BrokenTie("comparison ufunc applied to something else than two input tables: " + src)
         if not (isinstance(f, Py) and isinstance(f.v, tuple) and f.v):
             raise BrokenTie("call of %s: %s" % (type(f).__name__, src))
         kind = f.v[0]
+        if kind == "builtin":
+            if len(args) == 1 and isinstance(args[0], Names) and not kw:
+                if f.v[1] == "list":
+                    return args[0]
+                return Names(args[0].idx, f.v[1] + "(" + args[0].order + ")")
+            raise BrokenTie("unsupported call: " + src)
         if kind == "demandsat":
             # Demands.at(time, category=None, multiplier=1)
             names = ["time", "category", "multiplier"]
@@ -850,7 +933,7 @@ class Interp:
                 raise BrokenTie("Demands.at with a category that is not the function's own argument: " + src)
             t_e = expr_of(b["time"], "time of Demands.at")
             m_e = expr_of(b.get("multiplier", Py(1)), "multiplier of Demands.at")
-            return Fr(f.v[1], ("fn2", fname, t_e, m_e))
+            return Fr(f.v[1], ("fn2", fname, t_e, m_e), lab=None)
         if kind == "func":
             return self.call_function(f.v[1], f.v[2], args, kw)
         if kind == "netmethod":
@@ -865,7 +948,7 @@ class Interp:
         if kind == "elemmethod":
             idx, m = f.v[1], f.v[2]
             if m == "get_head_curve_coefficients" and not args:
-                return Tup([Fr(idx, ("var", "curveA")), Fr(idx, ("var", "curveB")), Fr(idx, ("var", "curveC"))])
+                return Tup([Fr(idx, ("var", "curveA"), lab=None), Fr(idx, ("var", "curveB"), lab=None), Fr(idx, ("var", "curveC"), lab=None)])
             if m == "get_volume" and idx == "tanks":
                 return self.call_function("elements", "Tank.get_volume", [Elem("tanks")] + args, kw)
             raise BrokenTie("unsupported element method: " + src)
@@ -877,10 +960,12 @@ class Interp:
                     if isinstance(axis, Py) and axis.v == 1:
                         if v.idx not in KNOWN_IDX:
                             raise BrokenTie("sum over the unnamed column set %s" % v.idx)
+                        if v.lab is None:
+                            raise BrokenTie(".sum(axis=1) of a single column")
                         return Num(("sum", v.idx, v.e))
                     raise BrokenTie("only .sum(axis=1) is flattened: " + src)
                 if m == "abs" and not args:
-                    return Fr(v.idx, ("abs", v.e))
+                    return lift1(v, lambda x: ("abs", x), "abs")
                 if m in ("div", "divide", "truediv") and len(args) == 1:
                     return lift2(v, args[0], lambda x, y: ("div", x, y), m)
                 if m in ("mul", "multiply") and len(args) == 1:
@@ -890,10 +975,16 @@ class Interp:
                 if m in ("sub", "subtract") and len(args) == 1:
                     return lift2(v, args[0], lambda x, y: ("sub", x, y), m)
                 if m == "round" and not args and not kw:
-                    return Fr(v.idx, ("round", v.e))
+                    return Fr(v.idx, ("round", v.e), lab=v.lab)
                 if m == "where" and len(args) == 1 and not kw and isinstance(args[0], Mask) and args[0].idx == v.idx:
-                    return Fr(v.idx, ("ite", args[0].c, v.e, ("nan",)))  # pandas puts NaN where the mask is False
-                if m in ("to_numpy", "copy", "astype", "reindex"):
+                    return Fr(v.idx, ("ite", args[0].c, v.e, ("nan",)), lab=v.lab)  # pandas puts NaN where the mask is False
+                if m == "to_numpy":  # from here on values are paired by POSITION: remember the order of the columns
+                    if v.lab is None:
+                        return v
+                    if v.lab[0] == "pos":
+                        return v
+                    return Fr(v.idx, v.e, lab=("pos", (v.idx, v.order)))
+                if m in ("copy", "astype", "reindex"):
                     return v
             raise BrokenTie("unsupported method .%s of %s: %s" % (m, type(v).__name__, src))
         if kind == "modfunc":
@@ -919,8 +1010,13 @@ class Interp:
                     return EmptyFrame()
                 cols = kw.get("columns")
                 if isinstance(data, DictCols) and data.idx is not None and (cols is None or (isinstance(cols, Names) and cols.idx == data.idx)):
-                    return Fr(data.idx, data.e)
-                if isinstance(data, Fr) and (cols is None or (isinstance(cols, Names) and cols.idx == data.idx)):
+                    return Fr(data.idx, data.e, lab=("name", data.idx))
+                if isinstance(data, Fr) and data.lab is not None and data.lab[0] == "pos":
+                    # a numpy array given column names: the k-th column gets the k-th name
+                    if isinstance(cols, Names) and data.lab[1] == (cols.idx, cols.order) and cols.idx == data.idx:
+                        return Fr(data.idx, data.e, lab=("name", data.idx))
+                    raise BrokenTie("a numpy array in the order of %s (%s) is given other column names: %s" % (data.lab[1] + (src,)))
+                if isinstance(data, Fr) and data.lab == ("name", data.idx) and (cols is None or (isinstance(cols, Names) and cols.idx == data.idx)):
                     return data
             raise BrokenTie("unsupported library call: " + src)
         raise BrokenTie("unsupported call: " + src)
@@ -931,7 +1027,7 @@ class Interp:
     def on_curve(self, x, idx, fname):
         if isinstance(x, Fr) and x.idx != idx:
             raise BrokenTie("curve of %s evaluated on columns of %s" % (idx, x.idx))
-        return Fr(idx, ("fn1", fname, expr_of(x, fname)))
+        return Fr(idx, ("fn1", fname, expr_of(x, fname)), lab=x.lab if isinstance(x, Fr) else None)
 
 
 # `_interp_extrapolate(x, arr[:,0], arr[:,1])` is recognised by name (its body is tied by the differential run)
@@ -965,7 +1061,7 @@ def specs():
          dict(pressure=Fr(J, ("var", "pressure")), elevation=Fr(J, ("var", "elevation")), Pstar=Num(("gvar", "Pstar")),
               demand=Fr(J, ("var", "demand")), per_junction=Py(False))),
         ("tank_capacity", "hydraulic", "tank_capacity", dict(pressure=Tab("pressure"), wn=Net())),
-        ("tank_volume", "elements", "Tank.get_volume", dict(self=Elem("tanks"), level=Fr("tanks", ("var", "pressure")))),
+        ("tank_volume", "elements", "Tank.get_volume", dict(self=Elem("tanks"), level=Fr("tanks", ("var", "pressure"), lab=None))),
         ("population", "misc", "population", dict(wn=Net(), R=Num(("gvar", "R")))),
         ("population_impacted", "misc", "population_impacted",
          dict(pop=Fr("nodes", ("var", "pop")), arg1=Fr("nodes", ("var", "arg1")), operation=Rel(), arg2=Fr("nodes", ("var", "arg2")))),
@@ -1017,7 +1113,7 @@ def _with_opaque_calls(ip):
         if isinstance(n, ast.Call) and isinstance(n.func, ast.Name) and n.func.id == "average_expected_demand" and n.func.id not in vars_:
             args = [orig_ev(a, vars_, mod) for a in n.args]
             if len(args) == 1 and isinstance(args[0], Net) and not n.keywords:
-                return Fr("junctions", ("var", "averageExpectedDemand"))
+                return Fr("junctions", ("var", "averageExpectedDemand"), lab=("name", "junctions"))
             raise BrokenTie("average_expected_demand called with other arguments than (wn)")
         return orig_ev(n, vars_, mod)
 
@@ -1027,6 +1123,10 @@ def _with_opaque_calls(ip):
 
 def check_names(e, where):
     if not isinstance(e, tuple):
+        return
+    if e[0] == "at":
+        if e[1] not in KNOWN_VARS:
+            raise BrokenTie("%s reads the unknown table `%s` at a link's end node" % (where, e[1]))
         return
     if e[0] in ("var", "gvar") and e[1] not in KNOWN_VARS:
         raise BrokenTie("%s uses the input `%s`, which the Lean model does not name (Model/MExpr.lean Var)" % (where, e[1]))
@@ -1057,6 +1157,8 @@ def to_lean(e):
         return "(.const %s)" % lean_rat(e[1])
     if t in ("var", "gvar"):
         return "(.%s .%s)" % (t, e[1])
+    if t == "at":
+        return "(.at .%s .%sNode)" % (e[1], e[2].lower())
     if t in ("add", "sub", "mul", "div"):
         return "(.%s %s %s)" % (t, to_lean(e[1]), to_lean(e[2]))
     if t in ("neg", "abs", "round"):
@@ -1104,6 +1206,8 @@ def infix(e):
         return str(fr.numerator) if fr.denominator == 1 else "%s" % float(fr)
     if t in ("var", "gvar"):
         return e[1] if t == "var" else "$" + e[1]
+    if t == "at":
+        return "%s@%sNode" % (e[1], e[2].lower())
     ops = {"add": "+", "sub": "-", "mul": "*", "div": "/"}
     if t in ops:
         return "(%s %s %s)" % (infix(e[1]), ops[t], infix(e[2]))
